@@ -43,3 +43,21 @@ func init() {
 	sharedObs["C03"] = append(sharedObs["C03"], ar...)
 	sharedObs["C11"] = append(sharedObs["C11"], ar...)
 }
+
+// Shared low-level helpers several properties stand on.
+func init() {
+	httpReq := []Ob{
+		{ID: "E1.http.request.success-means-decoded", Fn: "http.HttpRequest", P: []string{"client", "req", "response"}, Kind: "ret ok",
+			Why: "a nil error means: the request was sent, the body was read completely, the status was 200 and the body was decoded into the caller's value - an empty, unreadable or undecodable answer is a failure (a JWKS / discovery / token download must not 'succeed' with nothing)",
+			Req: []string{"def($resp, $client.Do($req), 0)", "ok($client.Do($req))", "def($body, io.ReadAll($resp.Body), 0)", "ok(io.ReadAll($resp.Body))",
+				"eq($resp.StatusCode, http.StatusOK)", "ok(json.Unmarshal($body, $response))"}},
+	}
+	for _, p := range []string{"C13", "C19", "C09", "C02"} {
+		sharedObs[p] = append(sharedObs[p], httpReq...)
+	}
+	cookie := []Ob{
+		{ID: "E8.cookie.handler.keys", Fn: "http.NewCookieHandler", P: []string{"hashKey", "encryptKey", "opts"}, Kind: "call", Pat: "securecookie.New($hashKey, $encryptKey)", Max: 1,
+			Why: "the MAC key of the state / PKCE cookies is the caller's hash key itself (not padded, truncated or defaulted): an unset key must stay unusable and different keys must stay different"},
+	}
+	sharedObs["C17"] = append(sharedObs["C17"], cookie...)
+}
